@@ -171,6 +171,9 @@ struct RunCfg {
     older_op_chance: usize, // 1/x, 0 = never
     changed_paths: bool,
     locks_ineffective: bool,
+    /// C22 runs rebuild the index (and the changed-path index with small
+    /// `max_commits`) more often, so that partially covered indexes get merged
+    c22_focus: bool,
     /// `git.write-change-id-header = false`: the Git commit id then does not cover the change id
     no_change_id_header: bool,
     /// transactions that replace the whole view by an older operation's
@@ -1425,14 +1428,36 @@ impl RepoSim {
         // 0 = writer, 1 = reader, 2 = reindex
         let kind = if shared.cfg.heads_focus {
             d.weighted(&[5, 3, 0])
+        } else if shared.cfg.c22_focus {
+            d.weighted(&[6, 1, 3])
         } else {
             d.weighted(&[7, 2, 1])
         };
         sim.note("note:cmd_start", ["writer", "reader", "reindex"][kind].to_string());
         // --- load (at head, or at an older published operation)
-        let older = shared.cfg.older_op_chance > 0 && kind == 0 && d.chance(1, shared.cfg.older_op_chance);
+        // (index maintenance may also target an older operation, like
+        // `jj debug reindex --at-op`: that is how a side branch of the
+        // operation log gets a partially built changed-path index)
+        let older = shared.cfg.older_op_chance > 0 && (kind == 0 || (kind == 2 && shared.cfg.c22_focus)) && d.chance(1, shared.cfg.older_op_chance);
         let repo = if older {
-            let candidates: Vec<String> = shared.model.lock().unwrap().seen_heads.iter().cloned().collect();
+            let candidates: Vec<String> = {
+                let model = shared.model.lock().unwrap();
+                if shared.cfg.c22_focus {
+                    // the most recently published transactions: side branches that
+                    // are still un-reconciled or were reconciled a moment ago
+                    let recent: Vec<String> = model
+                        .txs
+                        .iter()
+                        .rev()
+                        .filter_map(|t| t.op_id.as_ref().map(|id| id.hex()))
+                        .filter(|h| model.seen_heads.contains(h))
+                        .take(2)
+                        .collect();
+                    if recent.is_empty() { model.seen_heads.iter().cloned().collect() } else { recent }
+                } else {
+                    model.seen_heads.iter().cloned().collect()
+                }
+            };
             if candidates.is_empty() {
                 loader.load_at_head().block_on().map_err(|e| CmdError::Load(err_chain(&e)))?
             } else {
@@ -1458,29 +1483,36 @@ impl RepoSim {
             return Ok(());
         }
         if kind == 2 {
-            // forced rebuild of the index for this operation
+            // index maintenance on the loaded operation: a forced rebuild of the
+            // commit index (which leaves it without changed paths), enabling or
+            // extending the changed-path index with a drawn `max_commits` (0 =
+            // enabled, nothing older indexed), or both. Done separately they
+            // leave, on one branch of the operation log, commits written while
+            // the changed-path index was off followed by indexed ones.
             if let Some(store) = repo
                 .index_store()
                 .downcast_ref::<jj_lib::default_index::DefaultIndexStore>()
             {
-                match store.build_index_at_operation(repo.operation(), repo.store()).block_on() {
-                    Ok(_) => {
-                        if shared.cfg.changed_paths {
-                            let max = [1u32, 3, 10, 1000][d.n(4)];
-                            match store.build_changed_path_index_at_operation(repo.op_id(), repo.store(), max, |_| {}).block_on() {
-                                Ok(_) => shared.model.lock().unwrap().probe("changed_path_index_rebuilt"),
-                                Err(e) => return Err(CmdError::Load(format!("index changed-path rebuild: {}", err_chain(&e)))),
-                            }
-                        }
-                        shared.model.lock().unwrap().probe("index_rebuilt");
-                        let repo2 = loader
-                            .load_at(repo.operation())
-                            .block_on()
-                            .map_err(|e| CmdError::Load(err_chain(&e)))?;
-                        Self::monitors(shared, sim, d, &loader, repo2.as_ref(), "after_rebuild");
+                let what = if shared.cfg.changed_paths { d.n(3) } else { 0 };
+                if what != 1 {
+                    match store.build_index_at_operation(repo.operation(), repo.store()).block_on() {
+                        Ok(_) => shared.model.lock().unwrap().probe("index_rebuilt"),
+                        Err(e) => return Err(CmdError::Load(format!("index rebuild: {}", err_chain(&e)))),
                     }
-                    Err(e) => return Err(CmdError::Load(format!("index rebuild: {}", err_chain(&e)))),
                 }
+                if what != 0 {
+                    let max = if shared.cfg.c22_focus { [0u32, 1, 2, 1000, 1000, 1000][d.n(6)] } else { [1u32, 3, 10, 1000][d.n(4)] };
+                    match store.build_changed_path_index_at_operation(repo.op_id(), repo.store(), max, |_| {}).block_on() {
+                        Ok(_) => shared.model.lock().unwrap().probe("changed_path_index_rebuilt"),
+                        Err(e) => return Err(CmdError::Load(format!("index changed-path rebuild: {}", err_chain(&e)))),
+                    }
+                }
+                sim.note("note:reindex", ["commit index rebuilt (changed paths dropped)", "changed-path index enabled/extended", "commit index rebuilt, changed-path index built"][what].to_string());
+                let repo2 = loader
+                    .load_at(repo.operation())
+                    .block_on()
+                    .map_err(|e| CmdError::Load(err_chain(&e)))?;
+                Self::monitors(shared, sim, d, &loader, repo2.as_ref(), "after_rebuild");
             }
             return Ok(());
         }
@@ -2077,6 +2109,64 @@ impl RepoSim {
         }
         sim.note("note:tx_published", short(op.id()));
         Self::monitors(shared, sim, d, &loader, new_repo.as_ref(), "committed");
+        // C22 runs: sometimes the same process goes on working on exactly this
+        // operation (as `--at-op` does) after turning the changed-path index off
+        // and on again with `max_commits` 0 or 1, and writes one more commit. Its
+        // branch of the operation log then has commits written while the index
+        // was off followed by an indexed one, while other processes extend the
+        // fully indexed branch.
+        if shared.cfg.c22_focus && d.chance(1, 5) {
+            if let Some(store) = new_repo.index_store().downcast_ref::<jj_lib::default_index::DefaultIndexStore>() {
+                let max = [0u32, 0, 1][d.n(3)];
+                store
+                    .build_changed_path_index_at_operation(new_repo.op_id(), new_repo.store(), max, |_| {})
+                    .block_on()
+                    .map_err(|e| CmdError::Load(format!("index changed-path rebuild: {}", err_chain(&e))))?;
+                sim.note("note:reindex", format!("same process: changed-path index of {} enabled/extended with max_commits={max}", short(new_repo.op_id())));
+                let repo2 = loader.load_at(new_repo.operation()).block_on().map_err(|e| CmdError::Load(err_chain(&e)))?;
+                let mut tx2 = repo2.start_transaction();
+                let parents: Vec<Commit> = visible_commits(tx2.repo());
+                let parent = parents[d.n(parents.len())].clone();
+                let tree = edit_tree(tx2.repo_mut(), &parent.tree(), d, &format!("{uniq}.follow")).map_err(CmdError::Commit)?;
+                let c = tx2
+                    .repo_mut()
+                    .new_commit(vec![parent.id().clone()], tree)
+                    .set_description(format!("follow-up {uniq}"))
+                    .write()
+                    .block_on()
+                    .map_err(|e| CmdError::Commit(err_chain(&e)))?;
+                sim.note("note:mut", format!("follow-up commit {} on {}", short(c.id()), short(parent.id())));
+                let mut rec2 = TxRec {
+                    pid,
+                    cmd,
+                    parent_ops: vec![repo2.op_id().clone()],
+                    description: format!("tx {uniq} follow-up"),
+                    ..TxRec::default()
+                };
+                rec2.created.push((c.id().clone(), c.change_id().clone()));
+                shared.model.lock().unwrap().written_commits.push((c.id().clone(), c.store_commit().as_ref().clone()));
+                let unpublished2 = tx2.write(rec2.description.clone()).block_on().map_err(|e| CmdError::Commit(err_chain(&e)))?;
+                let op2 = unpublished2.operation().clone();
+                rec2.op_id = Some(op2.id().clone());
+                let idx2 = {
+                    let mut model = shared.model.lock().unwrap();
+                    rec2.id = model.txs.len();
+                    model.txs.push(rec2);
+                    model.written_ops.push((op2.id().clone(), op2.store_operation().clone()));
+                    model.probe("c22_follow_up_after_index_toggle");
+                    model.txs.len() - 1
+                };
+                sim.note("note:tx_written", format!("op {} parent {}", short(op2.id()), short(repo2.op_id())));
+                let repo3 = unpublished2.publish().block_on().map_err(|e| CmdError::Commit(err_chain(&e)))?;
+                {
+                    let mut model = shared.model.lock().unwrap();
+                    model.txs[idx2].publish_returned = true;
+                    model.written_views.push((op2.view_id().clone(), repo3.view().store_view().clone()));
+                }
+                sim.note("note:tx_published", short(op2.id()));
+                Self::monitors(shared, sim, d, &loader, repo3.as_ref(), "committed");
+            }
+        }
         Ok(())
     }
 
@@ -2402,7 +2492,7 @@ impl Engine for RepoSim {
         let skew_ms: Vec<i64> = (0..n_procs)
             .map(|_| if skewed { [0i64, -7_200_000, 5_000, 86_000_000][chooser.choose(4)] } else { 0 })
             .collect();
-        let older_op_chance = *chooser.pick(&[0usize, 8, 4]);
+        let older_op_chance = if prop == "C22" { *chooser.pick(&[0usize, 3, 2]) } else { *chooser.pick(&[0usize, 8, 4]) };
         let n_bookmarks = *chooser.pick(&[2usize, 1, 4]);
         let cfg = SimCfg {
             switch_den,
@@ -2488,7 +2578,11 @@ impl Engine for RepoSim {
         }
         let changed_paths = prop == "C22" || chooser.chance(1, 4);
         let restores = prop == "C46" && chooser.chance(1, 2);
-        if changed_paths && !heads_focus {
+        // In C22 runs the changed-path index is off at the start half of the
+        // time (jj's default) and gets enabled later by a maintenance command on
+        // one branch of the operation log: "enabled only partway".
+        let enabled_at_start = prop != "C22" || chooser.chance(1, 2);
+        if changed_paths && !heads_focus && enabled_at_start {
             let settings = make_settings(8, 0, 0, 2001, "+00:00", "");
             let loader = RepoLoader::init_from_file_system(&settings, &repo_dir, &jj_lib::default_backend_factories::default_backend_factories()).unwrap();
             let repo = loader.load_at_head().block_on().unwrap();
@@ -2509,6 +2603,7 @@ impl Engine for RepoSim {
                 older_op_chance,
                 changed_paths: changed_paths && !heads_focus,
                 locks_ineffective,
+                c22_focus: prop == "C22",
                 no_change_id_header,
                 restores,
             },
